@@ -16,6 +16,25 @@ def main(argv):
     if argv[0] == 'replay':
         from . import replay
         return replay.main(argv[1:])
+    if argv[0] == 'regress':
+        # replay the recorded minimal history of every repaired defect (regressions/<id>.json, written by
+        # tools/fix_matrix.sh from the tree with that repair reverted): none may violate its oracle again
+        import contextlib
+        import io
+        from . import replay
+        d = os.path.join(engine.VERIF, 'regressions')
+        bad = 0
+        for n in sorted(os.listdir(d)):
+            if not n.endswith('.json') or n == 'fix_matrix.json':
+                continue
+            buf = io.StringIO()
+            with contextlib.redirect_stdout(buf):
+                code = replay.main([os.path.join(d, n)])
+            print('%-10s %s' % (n[:-5], 'ok' if code == 0 else 'VIOLATED AGAIN'))
+            if code:
+                bad += 1
+                print(buf.getvalue())
+        return 1 if bad else 0
     prop = argv[0]
     tier = os.environ.get('VERIF_TIER', 'quick')
     if '--tier' in argv:
